@@ -284,10 +284,7 @@ def _symbols(e):
         if z3.is_app(t):
             d = t.decl()
             if d.kind() == z3.Z3_OP_UNINTERPRETED:
-                if t.num_args() == 0:
-                    out.add(d.name())
-                else:
-                    out.add(str(t) if all(z3.is_const(a) or z3.is_int_value(a) for a in t.children()) and len(str(t)) < 60 else d.name())
+                out.add(d.name())
             todo.extend(t.children())
     _SYMS[k] = out
     return out
@@ -314,10 +311,69 @@ def relevant(hyps, goal):
     return chosen, len(rest)
 
 
+def _consts(e):
+    """0-ary uninterpreted constants of a term (cached)"""
+    k = ("c", e.get_id())
+    if k in _SYMS:
+        return _SYMS[k]
+    out = set()
+    seen = set()
+    todo = [e]
+    while todo:
+        t = todo.pop()
+        if t.get_id() in seen:
+            continue
+        seen.add(t.get_id())
+        if z3.is_quantifier(t):
+            todo.append(t.body())
+        elif z3.is_app(t):
+            if t.num_args() == 0 and t.decl().kind() == z3.Z3_OP_UNINTERPRETED:
+                out.add(t.decl().name())
+            todo.extend(t.children())
+    _SYMS[k] = out
+    return out
+
+
+def local_hyps(hyps, goal):
+    """hypotheses connected to the goal through non-hub constants (hub = constant occurring in > 25% of the hypotheses,
+    e.g. N, E).  Used only for counter-model search: the result is a *candidate* (status failed-weak) until replayed."""
+    cs = [(_consts(h), h) for h in hyps]
+    cnt = {}
+    for c_, _ in cs:
+        for x in c_:
+            cnt[x] = cnt.get(x, 0) + 1
+    hubs = {x for x, n in cnt.items() if n > max(8, len(hyps) // 4)}
+    want = set(_consts(goal)) - hubs
+    chosen = []
+    rest = cs
+    changed = True
+    while changed:
+        changed = False
+        keep = []
+        for c_, h in rest:
+            loc = c_ - hubs
+            if (not loc and len(c_) > 0 and len(str(h)) < 200) or (loc & want):
+                chosen.append(h)
+                if not loc <= want:
+                    want |= loc
+                    changed = True
+            else:
+                keep.append((c_, h))
+        rest = keep
+    return chosen
+
+
+FAILS = dict(n=0)
+
+
 def prove(hyps, goal, timeout_ms=None, want_model=True):
-    """-> (status, model, backend, secs, smt2) with status in proved/failed/unknown."""
+    """-> (status, model, backend, secs, smt2); status in proved / failed / failed-weak / unknown.
+    failed = the full VC is satisfiable (model attached); failed-weak = only a subset of the hypotheses was used to find
+    the counter-model (a candidate: counts only if the native replay confirms it)."""
     from . import backend
     timeout_ms = timeout_ms or CTX.timeout_ms
+    if FAILS["n"] >= 6:          # many failures already in this unit: do not burn the unit's wall-clock budget
+        timeout_ms = min(timeout_ms, 4000)
     t0 = time.time()
     STATS["queries"] += 1
     sub, dropped = relevant(hyps, goal)
@@ -327,23 +383,31 @@ def prove(hyps, goal, timeout_ms=None, want_model=True):
             dt = time.time() - t0
             STATS["z3_secs"] += dt
             return "proved", None, "z3", dt, None
-    res = _forked(lambda: _z3_check(hyps, goal, timeout_ms, want_model), timeout_ms / 1000.0 + 2.0)
-    dt = time.time() - t0
-    STATS["z3_secs"] += dt
+    first_ms = min(timeout_ms, 6000)
+    res = _forked(lambda: _z3_check(hyps, goal, first_ms, want_model), first_ms / 1000.0 + 2.0)
+    STATS["z3_secs"] += time.time() - t0
     if res is not None and res[0] in ("proved", "failed"):
-        return res[0], res[1], "z3", dt, None
-    # unknown: Ackermannised query (pure arithmetic; nlsat can build counter-models)
-    res2 = _forked(lambda: _z3_check_ack(sub if dropped else hyps, goal, timeout_ms, want_model), timeout_ms / 1000.0 + 2.0)
-    if res2 is not None and res2[0] == "proved":
-        dt = time.time() - t0
-        return "proved", None, "z3-ack", dt, None
-    if res2 is not None and res2[0] == "failed" and not dropped:
-        dt = time.time() - t0
-        return "failed", res2[1], "z3-ack", dt, None
-    if res2 is not None and res2[0] == "failed" and dropped:
-        res3 = _forked(lambda: _z3_check_ack(hyps, goal, timeout_ms, want_model), timeout_ms / 1000.0 + 2.0)
-        if res3 is not None and res3[0] in ("proved", "failed"):
-            return res3[0], res3[1], "z3-ack", time.time() - t0, None
+        if res[0] == "failed":
+            FAILS["n"] += 1
+        return res[0], res[1], "z3", time.time() - t0, None
+    # unknown: Ackermannised query on the full hypotheses (pure arithmetic; nlsat can build counter-models)
+    ack_ms = min(timeout_ms, 12000)
+    res2 = _forked(lambda: _z3_check_ack(hyps, goal, ack_ms, want_model), ack_ms / 1000.0 + 2.0)
+    if res2 is not None and res2[0] in ("proved", "failed"):
+        if res2[0] == "failed":
+            FAILS["n"] += 1
+        return res2[0], res2[1], "z3-ack", time.time() - t0, None
+    # candidate counter-model from the hypotheses local to the goal
+    loc = local_hyps(hyps, goal)
+    res3 = _forked(lambda: _z3_check_ack(loc, goal, ack_ms, want_model), ack_ms / 1000.0 + 2.0)
+    if res3 is not None and res3[0] == "proved":
+        return "proved", None, "z3-ack-local", time.time() - t0, None
+    weak = res3[1] if (res3 is not None and res3[0] == "failed") else None
+    if weak is not None or FAILS["n"] >= 6:
+        FAILS["n"] += 1
+        if weak is not None:
+            return "failed-weak", weak, "z3-ack-local", time.time() - t0, None
+        return "unknown", None, "none", time.time() - t0, None
     if res is None:   # hard kill: build the SMT-LIB text in the parent (no solving)
         s = z3.Solver()
         for h in hyps:
@@ -352,13 +416,21 @@ def prove(hyps, goal, timeout_ms=None, want_model=True):
         smt2 = s.to_smt2()
     else:
         smt2 = res[2]
-    # unknown: second opinions (z3 CLI, cvc5), each in a killable subprocess
-    st, model, be, secs = backend.second_opinion(smt2, timeout_ms / 1000.0)
+    # second opinions (z3 CLI, cvc5), each in a killable subprocess
+    st, model, be, secs = backend.second_opinion(smt2, min(timeout_ms / 1000.0, 15.0))
     STATS["cvc5_queries"] += 1
     STATS["cvc5_secs"] += secs
     if st == "unknown":
         STATS["unknown"] += 1
-    return st, model, be, dt + secs, smt2
+        FAILS["n"] += 1
+    return st, model, be, time.time() - t0, smt2
+
+
+def quick_prove(hyps, goal, timeout_ms=1500):
+    """cheap structural query (block alignment, empty blocks): True only if z3 proves it within the budget"""
+    sub, dropped = relevant(hyps, goal)
+    r = _forked(lambda: _z3_check(sub, goal, timeout_ms, False), timeout_ms / 1000.0 + 1.0)
+    return r is not None and r[0] == "proved"
 
 
 def feasible(extra, timeout_ms=3000):
@@ -375,8 +447,9 @@ def feasible(extra, timeout_ms=3000):
     return not (r is not None and r[0] == "unsat")
 
 
-def check(name, goal, kind="ensures", note="", extra=()):
-    """record a named obligation for the current path; a proved goal becomes a hypothesis."""
+def check(name, goal, kind="ensures", note="", extra=(), fallback_extra=None):
+    """record a named obligation for the current path; a proved goal becomes a hypothesis.
+    fallback_extra: hypotheses (e.g. revealed definitions of opaque cuts) tried only if the goal is not proved without."""
     c = CTX
     if isinstance(goal, SB):
         goal = goal.e
@@ -385,6 +458,13 @@ def check(name, goal, kind="ensures", note="", extra=()):
     elif isinstance(goal, (list, tuple)):
         goal = z3.And(*[g.e if isinstance(g, SB) else (z3.BoolVal(g) if isinstance(g, bool) else g) for g in goal])
     st, model, be, secs, smt2 = prove(c.hyps() + list(extra), goal)
+    if st != "proved" and fallback_extra:
+        fb = fallback_extra() if callable(fallback_extra) else list(fallback_extra)
+        st2, model2, be2, secs2, smt22 = prove(c.hyps() + list(extra) + fb, goal)
+        secs += secs2
+        if st2 == "proved" or st != "failed":
+            st, model, be, smt2 = st2, model2, be2 + "+reveal", smt22
+            extra = list(extra) + fb
     o = Obl(c.prefix + name, st, model, be, secs, c.path_index, note, smt2, kind)
     c.obls.append(o)
     if st == "proved":
@@ -1075,6 +1155,7 @@ def cis_atom(theta):
     if key not in c.ghost:
         c.ghost[key] = True
         c.ax.append(co * co + si * si == 1)
+        c.ax.append(z3.Implies(theta == 0, z3.And(co == 1, si == 0)))      # cis(0) = 1
     return SC(SR(co), SR(si))
 
 
@@ -1117,10 +1198,10 @@ import os as _os
 if _os.environ.get("PYVC_TRACE"):
     _check0 = check
 
-    def check(name, goal, kind="ensures", note="", extra=()):  # noqa: F811
+    def check(name, goal, kind="ensures", note="", extra=(), fallback_extra=None):  # noqa: F811
         import sys as _s
         t = time.time()
         print(f"  [trace] {name} ...", end="", file=_s.stderr, flush=True)
-        r = _check0(name, goal, kind, note, extra)
+        r = _check0(name, goal, kind, note, extra, fallback_extra)
         print(f" {CTX.obls[-1].status} {time.time()-t:.2f}s ({CTX.obls[-1].backend})", file=_s.stderr, flush=True)
         return r
